@@ -31,6 +31,14 @@ fn main() {
             for t in 0..n { gen_trace(seed, t, steps, profile, &mut out); }
         }
         Some("replay") => replay(&args[2], &mut out),
+        Some("exhaust") => {
+            // cache_trace exhaust <depth> <alphabet 0|1> <hasher>
+            let depth: usize = args[2].parse().unwrap();
+            let alphabet: u8 = args[3].parse().unwrap();
+            let hk: u8 = args.get(4).and_then(|s| s.parse().ok()).unwrap_or(0);
+            let n = exhaust(depth, alphabet, hk, &mut out);
+            eprintln!("exhaust: {} sequences", n);
+        }
         _ => { eprintln!("usage: cache_trace gen <seed> <ntraces> <steps> [profile] | replay <file>"); std::process::exit(2); }
     }
     out.flush().unwrap();
